@@ -14,23 +14,55 @@ PID = "C04"
 POSITIONS = ["plain", "decorated", "decorated_multiline", "decorated_gap", "decorated_async", "multiline_signature", "async", "if", "else", "elif", "try", "except", "tryelse", "finally", "with", "for", "while", "match"]
 
 
+# one definition per arm of ONE compound statement ("a class defined once per branch"): preamble lines, arm headers, extra indentation of the headers
+ALT_SHAPES = {
+    "ifelse": ([], ["if FLAG:", "else:"], 0),
+    "ifelifelse": ([], ["if FLAG:", "elif OTHER:", "else:"], 0),
+    "tryexcept": ([], ["try:", "except Exception:"], 0),
+    "tryfinally": ([], ["try:", "finally:"], 0),
+    "tryfull": ([], ["try:", "except ValueError:", "except Exception:", "else:", "finally:"], 0),
+    "match": (["match FLAG:"], ["case 1:", "case 2:", "case _:"], 1),
+}
+
+
 class DefGen:
-    def __init__(self, rng, dup_prob=0.0):
+    def __init__(self, rng, dup_prob=0.0, reuse_prob=0.0, alt_prob=0.0):
         self.rng = rng
         self.n = 0
         self.dup_prob = dup_prob
+        # the simple name of a definition does not identify it inside a module: with reuse_prob a new definition takes the simple name of ANY earlier
+        # definition of its kind in the module (another scope: `Meta` in two classes, `Dummy` in two functions, `__init__`-like methods; or the same scope)
+        self.reuse_prob = reuse_prob
+        self.alt_prob = alt_prob
+        self.pool = {"fn": [], "cls": []}
 
     def name(self, kind, siblings):
         if siblings and self.rng.random() < self.dup_prob:
             cands = [s for s in siblings if s[0] == kind]
             if cands:
                 return self.rng.choice(cands)[1]
+        if self.reuse_prob and self.pool[kind] and self.rng.random() < self.reuse_prob:
+            return self.rng.choice(self.pool[kind])
         self.n += 1
-        return ("fn%d" if kind == "fn" else "Cls%d") % self.n
+        nm = ("fn%d" if kind == "fn" else "Cls%d") % self.n
+        self.pool[kind].append(nm)
+        return nm
 
     def defs(self, depth, in_class, max_n):
         out, sib = [], []
         for _ in range(self.rng.randint(1, max_n)):
+            if self.alt_prob and depth < 3 and self.rng.random() < self.alt_prob:
+                # the same simple name defined once per arm of one if/try/match statement
+                shape = self.rng.choice(sorted(ALT_SHAPES))
+                kind = self.rng.choice(["cls", "cls", "fn"])
+                nm = self.name(kind, sib)
+                sib.append((kind, nm))
+                arms = []
+                for _h in ALT_SHAPES[shape][1]:
+                    kids = self.defs(depth + 2, kind == "cls", 2) if self.rng.random() < 0.4 else []
+                    arms.append([{"kind": kind, "name": nm, "kids": kids, "pos": "plain", "in_class": in_class}])
+                out.append({"kind": "alt", "shape": shape, "arms": arms})
+                continue
             kind = self.rng.choice(["fn", "fn", "cls"])
             nm = self.name(kind, sib)
             sib.append((kind, nm))
@@ -48,6 +80,13 @@ TAILS = [None, None, "comment_body", "comment_deeper", "blank_comment", "multili
 def render(defs, indent, lines):
     I = "    " * indent
     for d in defs:
+        if d["kind"] == "alt":
+            pre, heads, extra = ALT_SHAPES[d["shape"]]
+            lines += [I + p for p in pre]
+            for head, arm in zip(heads, d["arms"]):
+                lines.append(I + "    " * extra + head)
+                render(arm, indent + extra + 1, lines)
+            continue
         pos = d["pos"]
         inner = indent
         if pos == "if":
@@ -127,6 +166,84 @@ def render(defs, indent, lines):
             lines += [I + "except Exception:", I + "    pass"]
         if pos == "match":
             lines += [I + "    case _:", I + "        pass"]
+
+
+def _cls(name, kids=(), in_class=False, pos="plain"):
+    return {"kind": "cls", "name": name, "kids": list(kids), "pos": pos, "in_class": in_class}
+
+
+def _fn(name, kids=(), in_class=False, pos="plain"):
+    return {"kind": "fn", "name": name, "kids": list(kids), "pos": pos, "in_class": in_class}
+
+
+def _alt(shape, make):
+    return {"kind": "alt", "shape": shape, "arms": [[make(k)] for k in range(len(ALT_SHAPES[shape][1]))]}
+
+
+def same_name_modules():
+    """fixed modules in which several definitions share their simple name: (1) classes, one shape per group; (2) the same shapes with functions
+    (an inner helper per outer definition keeps distinct dotted names; one definition per branch / a redefinition repeats the dotted name)"""
+    classes = [
+        # an inner helper class per outer class (`class Meta:` / `class Config:`)
+        _cls("Author", [_cls("Meta", in_class=True), _fn("label", in_class=True)]),
+        _cls("Book", [_cls("Meta", [_fn("describe", in_class=True)], in_class=True), _fn("label", in_class=True), _fn("owner", in_class=True)]),
+        _cls("Shelf", [_cls("Meta", in_class=True, pos="decorated")]),
+        # a local class with a recurring name in several functions
+        _fn("test_a", [_cls("Dummy")]),
+        _fn("test_b", [_cls("Dummy", [_fn("run", in_class=True)])]),
+        _cls("Suite", [_fn("test_c", [_cls("Dummy")], in_class=True)]),
+        # redefinition in the same scope, twice and three times
+        _cls("Twice", [_fn("one", in_class=True)]),
+        _cls("Twice", [_fn("two", in_class=True)]),
+        _cls("Thrice"), _cls("Thrice", pos="if"), _cls("Thrice", pos="decorated_gap"),
+        # a class nested in a class of the same name
+        _cls("Node", [_cls("Node", [_cls("Node", in_class=True)], in_class=True)]),
+        # the simple name of a top-level class used again for a nested one
+        _cls("Plain"),
+        _cls("Holder", [_cls("Plain", in_class=True)]),
+    ]
+    # a class defined once per branch of one statement
+    for shape in sorted(ALT_SHAPES):
+        classes.append(_alt(shape, lambda k, shape=shape: _cls("Per_" + shape, [_fn("get", in_class=True)])))
+    functions = [
+        _cls("Left", [_fn("__init__", in_class=True), _fn("label", [_fn("helper")], in_class=True)]),
+        _cls("Right", [_fn("__init__", in_class=True), _fn("label", [_fn("helper")], in_class=True)]),
+        _fn("outer_a", [_fn("helper")]),
+        _fn("outer_b", [_fn("helper", pos="async")]),
+        _fn("helper"),
+        _fn("again"), _fn("again", pos="decorated"),
+    ]
+    for shape in sorted(ALT_SHAPES):
+        functions.append(_alt(shape, lambda k, shape=shape: _fn("per_" + shape)))
+    # one group per module as well: a single loss cannot hide behind another group of the same file
+    singles = [[_cls("A", [_cls("Meta", in_class=True)]), _cls("B", [_cls("Meta", in_class=True)])],
+               [_alt("ifelse", lambda k: _cls("Cache", [_fn("get", in_class=True)]))],
+               [_fn("f", [_cls("Local")]), _fn("g", [_cls("Local")])]]
+    return [classes, functions] + singles
+
+
+def class_cells(want, have):
+    """compare the classes of one file in one section by line span (multisets): returns (extra, cells) where cells maps a frozen signature to the
+    missing classes it explains. A missing class whose simple name is carried by several class statements of the file is attributed to its name
+    group, with what the section reports of that group (exactly one member / none / several)"""
+    from collections import Counter
+    hs = Counter((s, e) for _, s, e in have)
+    ws = Counter((s, e) for _, s, e in want)
+    extra = sorted(h for h in set(have) if hs[(h[1], h[2])] > ws[(h[1], h[2])])
+    miss = [w for w in want if hs[(w[1], w[2])] < ws[(w[1], w[2])]]
+    groups = {}
+    for w in want:
+        groups.setdefault(w[0].split(".")[-1], []).append(w)
+    cells = {}
+    for w in miss:
+        grp = groups[w[0].split(".")[-1]]
+        if len(grp) > 1:
+            kept = sum(1 for g in grp if hs[(g[1], g[2])] >= 1)
+            sig = (("kind", "dup-class-name"), ("reported", "one-per-name" if kept == 1 else "none" if kept == 0 else "some"))
+        else:
+            sig = (("kind", "class-missing"),)
+        cells.setdefault(sig, []).append(w)
+    return extra, cells
 
 
 def reference(src):
@@ -215,15 +332,38 @@ def run(tier, seed, replay=None):
             fixed.append({"kind": "cls", "name": "C_" + pos, "kids": [{"kind": "fn", "name": "meth", "kids": [], "pos": pos, "in_class": True},
                                                                      {"kind": "cls", "name": "Inner_" + pos, "kids": [], "pos": "plain", "in_class": True}], "pos": pos, "in_class": False})
     mods.append(fixed)
+    # several class / def statements of one module with the same SIMPLE name, every way the quantifier allows it (nesting, conditional definition,
+    # redefinition), once, deterministically: each statement is its own definition with its own lines
+    mods += same_name_modules()
+    base = len(mods)
     for i in range(nmod):
-        g = DefGen(rng, dup_prob=0.12 if i % 3 == 0 else 0.0)
+        if i % 3 == 1:
+            # simple names shared across scopes and across the arms of one statement (the dotted names stay distinct unless the scope is the same)
+            g = DefGen(rng, reuse_prob=0.3, alt_prob=0.15)
+        else:
+            g = DefGen(rng, dup_prob=0.12 if i % 3 == 0 else 0.0)
         mods.append(g.defs(0, False, 4))
     # byte-identical files (vendored copies, boilerplate): each file still lists its own definitions, once
-    mods += [mods[1], mods[1], mods[min(3, len(mods) - 1)]]
+    mods += [mods[base], mods[base], mods[min(base + 2, len(mods) - 1)]]
     tmp = tempfile.mkdtemp(prefix="pv_c04_")
-    hist = {"modules": len(mods), "functions": 0, "classes": 0, "dup_names": 0, "positions": {}, "byte_identical_files": 3}
+    hist = {"modules": len(mods), "functions": 0, "classes": 0, "dup_names": 0, "positions": {}, "byte_identical_files": 3,
+            "same_name_fixed_modules": len(same_name_modules()), "alt_shapes": {}, "same_simple_name_class_groups": 0,
+            "same_simple_name_class_groups_distinct_dotted": 0, "same_simple_name_classes": 0, "same_simple_name_function_groups_distinct_dotted": 0,
+            "class_cells": {}}
     samples = []
     nontrivial = set()
+
+    def count_shapes(defs):
+        for d in defs:
+            if d["kind"] == "alt":
+                hist["alt_shapes"][d["shape"]] = hist["alt_shapes"].get(d["shape"], 0) + 1
+                for arm in d["arms"]:
+                    count_shapes(arm)
+            else:
+                hist["positions"][d["pos"]] = hist["positions"].get(d["pos"], 0) + 1
+                count_shapes(d["kids"])
+    for m in mods:
+        count_shapes(m)
     try:
         proj = os.path.join(tmp, "proj")
         os.makedirs(proj)
@@ -267,6 +407,10 @@ def run(tier, seed, replay=None):
             dup = len(names) != len(set(names))
             if dup:
                 hist["dup_names"] += 1
+            fbare = {}
+            for q, n, _, _ in fns:
+                fbare.setdefault(n, set()).add(q)
+            hist["same_simple_name_function_groups_distinct_dotted"] += sum(1 for qs in fbare.values() if len(qs) > 1)
             nontrivial.add(i)
             if model is not None:
                 mrows = sorted(tuple([r.split(":")[0], int(r.split(":")[1]), int(r.split(":")[2])]) for r in model[i].split(";") if r)
@@ -283,32 +427,52 @@ def run(tier, seed, replay=None):
                     res.known_finding(k, "(e.g. %s)" % (missing[:2],))
                 else:
                     res.violation("C04: functions of %s: missing %s, unexpected %s" % (fn, missing[:4], extra[:4]), {"signature": sig, "source": src})
-            for section, have, sname in ((got_l, sorted(got_l.get(fn, [])), "lcom"), (got_c, sorted(got_c.get(fn, [])), "cbo")):
-                want_c = sorted((q, s, e) for q, n, s, e in clss)
+            want_c = sorted((q, s, e) for q, n, s, e in clss)
+            by_bare = {}
+            for q, n, s, e in clss:
+                by_bare.setdefault(n, set()).add(q)
+            for n, qs in by_bare.items():
+                k = sum(1 for c in clss if c[1] == n)
+                if k > 1:
+                    hist["same_simple_name_class_groups"] += 1
+                    hist["same_simple_name_class_groups_distinct_dotted"] += 1 if len(qs) > 1 else 0
+                    hist["same_simple_name_classes"] += k
+            for have, sname in ((sorted(got_l.get(fn, [])), "lcom"), (sorted(got_c.get(fn, [])), "cbo")):
                 if have == want_c:
+                    hist["class_cells"]["ok/" + sname] = hist["class_cells"].get("ok/" + sname, 0) + 1
                     continue
-                have_spans = sorted((s, e) for _, s, e in have)
-                want_spans = sorted((s, e) for _, s, e in want_c)
-                cnames = [n for _, n, _, _ in clss]
-                if have_spans == want_spans:
-                    sig = {"kind": "nested-class-bare-name", "section": sname}
-                    detail = [(h[0], w[0]) for h, w in zip(sorted(have, key=lambda x: x[1:]), sorted(want_c, key=lambda x: x[1:])) if h[0] != w[0]][:2]
-                else:
-                    miss = [w for w in want_c if (w[1], w[2]) not in have_spans]
-                    extra = [h for h in have if (h[1], h[2]) not in want_spans]
-                    dupc = len(cnames) != len(set(cnames))
-                    if extra:
-                        sig = {"kind": "class-list-extra", "section": sname}
-                    elif dupc and all(cnames.count(w[0].split(".")[-1]) > 1 for w in miss):
-                        sig = {"kind": "dup-class-name", "section": sname}
+                # by line span (multisets): what is listed too often, what is not listed, and why
+                extra, cells = class_cells(want_c, have)
+                found = []
+                if extra:
+                    found.append(({"kind": "class-list-extra", "section": sname}, extra[:3]))
+                for sigt, ws in sorted(cells.items()):
+                    sig = dict(sigt)
+                    sig["section"] = sname
+                    found.append((sig, ws[:3]))
+                # the classes that are listed: under their dotted name (the property), or under the simple name (F23), nothing else
+                want_at = {(s, e): q for q, s, e in want_c}
+                bare, wrong = [], []
+                for h in have:
+                    q = want_at.get((h[1], h[2]))
+                    if q is None or h[0] == q:
+                        continue
+                    (bare if h[0] == q.split(".")[-1] else wrong).append((h[0], q))
+                if bare:
+                    found.append(({"kind": "nested-class-bare-name", "section": sname}, bare[:2]))
+                if wrong:
+                    found.append(({"kind": "class-name-wrong", "section": sname}, wrong[:3]))
+                if not found:
+                    found.append(({"kind": "class-list-differs", "section": sname}, (have[:3], want_c[:3])))
+                for sig, detail in found:
+                    cell = "%s/%s%s" % (sig["kind"], sname, ("/" + sig["reported"]) if "reported" in sig else "")
+                    hist["class_cells"][cell] = hist["class_cells"].get(cell, 0) + 1
+                    k = C.classify(PID, sig)
+                    if k:
+                        res.known_finding(k, "(%s: %s)" % (fn, detail))
                     else:
-                        sig = {"kind": "class-missing", "section": sname}
-                    detail = (miss[:3], extra[:3])
-                k = C.classify(PID, sig)
-                if k:
-                    res.known_finding(k, "(%s: %s)" % (fn, detail))
-                else:
-                    res.violation("C04: classes of %s in the %s section: %s (%s)" % (fn, sname, sig["kind"], detail), {"signature": sig, "source": src})
+                        res.violation("C04: classes of %s in the %s section: %s (%s)" % (fn, sname, " ".join("%s=%s" % kv for kv in sorted(sig.items())), detail),
+                                      {"signature": sig, "source": src, "section": sname, "reported": have, "expected": want_c})
             if len(samples) < 1:
                 samples.append({"source": src, "functions_reported": have_f[:8]})
     finally:
@@ -320,7 +484,11 @@ def run(tier, seed, replay=None):
         "evaluations": hist["functions"] + hist["classes"],
         "distinct_nontrivial": len(nontrivial),
         "rule": "one fixed module with a function and a class (with method and inner class) in each of the %d positions (plain, decorated, async, if/else/elif, "
-                "try/except/else/finally, with, for, while, match) + random definition trees (depth ≤4, redefinitions in every third module) through the real CLI; "
+                "try/except/else/finally, with, for, while, match) + random definition trees (depth ≤4, redefinitions in every third module; in every third module "
+                "simple names reused across scopes and one definition per arm of an if/elif/else, try/except/else/finally or match statement) + fixed modules "
+                "whose class / def statements share their simple name (inner class per outer class, local class per function, redefinition x2 x3, class in "
+                "a class of its name, one class per branch of each compound shape) through the real CLI; classes compared per line span, every difference "
+                "attributed to a cell (extra / missing / same-simple-name group with what is reported of it / simple name / wrong name); "
                 "reference = CPython ast; every module is non-trivial" % len(POSITIONS),
         "samples": samples,
         "traces_validated_against_impl": len(mods),
